@@ -70,6 +70,10 @@ Definition espp_record (r : espp_lay) : tbenefit :=
      tb_stc_shares := option_map dval (el_sold r); tb_stc_fee := option_map dval (el_fee r);
      tb_note := k_ESPP; tb_sell_note := None |}.
 
+(* commission + fee as the code adds them: rust_decimal addition (exact whenever the exact sum has at most
+   28 significant digits; the round-trip classes require the addition not to overflow) *)
+Definition dec_sum (a b : Qc) : Qc := match a_add dec a b with Ok v => v | _ => 0%Qc end.
+
 (* ---------------------------------------------------------------- ESO *)
 Record grant_lay : Type := { gl_num : text; gl_fmv : text; gl_shares : text; gl_sale : text; gl_fee : text }.
 Record eso_lay : Type := {
@@ -91,7 +95,9 @@ Definition render_eso (st : bool) (r : eso_lay) : text :=
   ++ sty st eso0_9 eso1_9 ++ date_text 47 (ol_date r) ++ sty st eso0_10 eso1_10 ++ ol_sym r
   ++ sty st eso0_11 eso1_11.
 
-Fixpoint exact_sum (l : list Qc) : Qc := match l with [] => 0%Qc | x :: r => (x + exact_sum r)%Qc end.
+(* the per-grant fees added as the code adds them (left fold of rust_decimal additions from 0) *)
+Fixpoint dec_sum_from (acc : Qc) (l : list Qc) : Qc :=
+  match l with [] => acc | x :: r => dec_sum_from (dec_sum acc x) r end.
 Fixpoint eso_records_aux (r : eso_lay) (fees : Qc) (gs : list grant_lay) : list tbenefit :=
   match gs with
   | [] => []
@@ -108,7 +114,7 @@ Fixpoint eso_records_aux (r : eso_lay) (fees : Qc) (gs : list grant_lay) : list 
          tb_sell_note := Some (ol_type r) |} :: eso_records_aux r fees rest
   end.
 Definition eso_records (r : eso_lay) : list tbenefit :=
-  eso_records_aux r (exact_sum (map (fun g => dval (gl_fee g)) (ol_grants r))) (ol_grants r).
+  eso_records_aux r (dec_sum_from 0%Qc (map (fun g => dval (gl_fee g)) (ol_grants r))) (ol_grants r).
 
 (* ---------------------------------------------------------------- pre-2023 trade confirmations *)
 Record pre_row_lay : Type := {
@@ -133,9 +139,6 @@ Definition render_tc_pre (st : bool) (r : pre_lay) : text :=
   ++ flat_map (render_pre_row st) (pr_rows r) ++ sty st pre0_foot pre1_foot.
 
 Definition opt_dval (o : option text) : Qc := match o with Some t => dval t | None => 0%Qc end.
-(* commission + fee as the code adds them: rust_decimal addition (exact whenever the exact sum has at most
-   28 significant digits; the round-trip classes require the addition not to overflow) *)
-Definition dec_sum (a b : Qc) : Qc := match a_add dec a b with Ok v => v | _ => 0%Qc end.
 Definition sell_or_buy (t : text) : action5 :=
   match action_of t with Ok a => a | _ => XSell end.
 Fixpoint pre_records (acct : text) (row : nat) (l : list pre_row_lay) : list ttrade :=
